@@ -8,6 +8,26 @@ VERIF = os.path.dirname(os.path.dirname(os.path.abspath(__file__)))
 PY = "/venv/bin/python harness/vcheck.py"
 
 CLAIMED = {
+    "C01": dict(
+        category="proof", design_ref="DESIGN.md 5 C01",
+        text="Lean 4 theorem over a model of the hash-validated cache (Cache.verify, cache_decorator, in-place / "
+             "reassignment edits, mutators that keep part of the cache), parametric in the cached functions: after "
+             "ANY history of reads, edits and sound cache-keeping mutators every read returns the value of that "
+             "property on the current data, hence two histories ending in the same data answer every read "
+             "identically (C01_read_fresh, C01_history_independent); soundness of a mutator = it verifies the "
+             "cache first and every kept value, after its transport, is the value on the data the cache id points "
+             "at. (G) the exclude sets, rewritten keys, id stamping, winding-flip handling and verify-first of "
+             "apply_transform / invert / process / unmerge_vertices and the transitive read sets of the 60 cached "
+             "properties are re-extracted from base.py by ast on every run and `decide` checks every kept key is "
+             "independent of what the mutator modifies or has a registered transport lemma (C04/C07). Witness "
+             "theorems show staleness without verify-first or with a dependent key (five such defects were found "
+             "and repaired). Tied to the code by differential histories: ~55 properties + ray / nearest answers "
+             "compared with a freshly built mesh after every step.",
+        note="Trusted: Lean kernel (+propext/Classical.choice/Quot.sound), hash injectivity, ast read sets as an "
+             "over-approximation of dependencies, the registered transport pairs (normals under similarity: "
+             "C04_similarity_normals; vertex-normal weights under similarity assumed). The cached functions "
+             "themselves are a parameter (not verified); values compared at 1e-6.",
+        technique="Lean 4 proof (cache-coherence invariant over op lists) + generated table obligations (decide) + differential histories"),
     "C02": dict(
         category="proof", design_ref="DESIGN.md 5 C02",
         text="Lean 4 theorems over a heap model of TrackedArray (buffers, window objects, dirty flag, memoised "
